@@ -13,4 +13,6 @@ for p in "$@"; do
   echo "$out" | grep -E '^  what|MACHINERY' | head -${SHOW:-3} | cut -c1-300
 done
 git -C /repo checkout -- . 
+# files the patch created are untracked: remove them too (ignored files such as target/ stay)
+git -C /repo clean -fdq
 git -C /repo status --short | head -3
